@@ -7,15 +7,15 @@ LEVEL = {
  "C02": ("exhaustive symbolic execution of the real untyped stack (router → secure API → binder → handler → Respond) over 12 requirement structures × global/per-operation × authorizer × all per-scheme outcomes; declarative OR-of-ANDs oracle", "DESIGN.md §2 C02"),
  "C03": ("the real untyped binder (UntypedRequestBinder.Bind → untypedParamBinder → strconv/swag/reflect model) executed symbolically for every parameter text up to the per-kind length over the declaration lattice kinds × locations × required × default × allowEmptyValue × occurrences (quick: two slices of it, thorough: the product incl. 21-byte int64 texts), arrays in every collection format, and a four-parameter operation through the whole untyped stack; oracle = literal denotation [+-]?[0-9]+ with width range, swag's boolean true-set, reference split; declared validations are a nondeterministic stub", "DESIGN.md §2 C03"),
  "C04": ("client transport and server middleware built from one description and joined by an in-memory wire (RequestURI text → ParseRequestURI, header map, body bytes), executed symbolically end to end through Runtime.Submit → router → binder → handler → Respond → response adapter: every byte string of ≤2 (quick) / ≤3 (thorough) bytes as path value and ≤1 / ≤2 bytes as query, header, urlencoded-form and repeated query values; answer direction with symbolic header and body bytes", "DESIGN.md §2 C04"),
- "C05": ("bounded symbolic execution of the real denco Build/Lookup: every lookup path of ≤4 (quick) / ≤7 (thorough) arbitrary bytes against each catalogue table and build order; naive segment matcher as oracle", "DESIGN.md §2 C05"),
+ "C05": ("bounded symbolic execution of the real denco Build/Lookup: every lookup path of ≤4 (quick) / ≤7 (thorough) arbitrary bytes against each catalogue table and build order; paths around every pattern of 6 route-set-like tables (pattern instance cut anywhere ⧺ arbitrary bytes); a generated table of 4 500 (7 500) records with >100 000 trie slots and symbolic tails; naive segment matcher as oracle", "DESIGN.md §2 C05, §8.3"),
  "C06": ("both binding entry points executed symbolically on the same request for every Content-Type = spelling ⧺ arbitrary bytes / raw bytes, 6 consumes lists, 4 body signalling forms, 2 methods; admission oracle from the statement; differential assertion between the entry points", "DESIGN.md §2 C06"),
  "C07": ("symbolic execution of ParseAccept/NegotiateContentType/NegotiateContentEncoding: totality over arbitrary header bytes, selection oracle over range catalogues with symbolic q digits, q-order preservation with exact (tabulated / monotone-threshold) float encodings up to 21 digits", "DESIGN.md §2 C07"),
  "C08": ("exhaustive lattice produces × success code × method × Accept × handler outcome through the real untyped stack with instrumented producers; basic-auth challenge with symbolic realm", "DESIGN.md §2 C08"),
  "C09": ("all accessor sequences up to length 3 (quick) / 5 (thorough) with call counters; sequential two-request isolation; shared-write monitor over one request from a warmed-up shared Context (inductive step for any number of concurrent requests)", "DESIGN.md §2 C09"),
  "C10": ("symbolic execution of the client URL construction (buildHTTP, PathEscape, url.Parse, EscapedPath) for path values of ≤1 (quick) / ≤2 (thorough) arbitrary bytes and placeholder-looking values over base-path × pattern catalogues, all set orders (thorough: all map iteration orders), caller/pattern/base query precedence; scheme selection exhaustive over lists of ≤3", "DESIGN.md §2 C10"),
  "C11": ("request.buildHTTP executed symbolically for every payload kind (nil, produced value, io.Reader, io.ReadCloser, urlencoded form, multipart files, multipart field+files) with symbolic values, contents, chunkings and file names, the multipart writer goroutine and io.Pipe on the cooperative scheduler; the sent bytes are compared with the payload (multipart documents re-read with the standard reader, part types against DetectContentType of the content) and with every GetBody result an auth writer obtained (0, 1 or 2 calls)", "DESIGN.md §2 C11"),
- "C12": ("Runtime.Submit executed symbolically with the multipart writer goroutine and io.Pipe on a cooperative scheduler (every wake-up order explored) under every fault placement of the stated lattice: failing parameter/auth writer, unbuildable URL/method, upload sources failing at any offset, transport failing before/after the request body, response bodies ending or failing at any offset, readers stopping early, reuse on/off; obligations: error unless complete, files closed, response body closed once (drained first under reuse), no goroutine left, request context derived with the timeout and cancelled; plus every Read-size sequence then Close on the draining body", "DESIGN.md §2 C12"),
- "C13": ("Runtime.Submit executed symbolically behind a scripted RoundTripper ((*http.Client).Do modelled as Transport.RoundTrip): consumer selection for every response Content-Type = absent / spelling (+ parameter) / spelling ⧺ ≤1 (quick) / ≤3 (thorough) arbitrary bytes / ≤2 / ≤4 raw bytes over 5 registries, status codes and header sets through the response adapter; client/context precedence lattice (exhaustive); shared-write monitor over one Submit from a Runtime with and without an initialised client (inductive step for any number of concurrent callers)", "DESIGN.md §2 C13"),
+ "C12": ("Runtime.Submit executed symbolically with the multipart writer goroutine and io.Pipe on a cooperative scheduler (every wake-up order explored) under every fault placement of the stated lattice: failing parameter/auth writer, unbuildable URL/method, upload sources failing at a symbolic offset with their own or io's sentinel error, transport failing before/after the request body, response bodies ending or failing at a symbolic offset, readers stopping early, reuse on/off; obligations: error unless complete, files closed, response body closed once (drained first under reuse), no goroutine left, request context derived with the timeout and cancelled; plus every Read-size sequence then Close on the draining body", "DESIGN.md §2 C12, §8.3"),
+ "C13": ("Runtime.Submit executed symbolically behind a scripted RoundTripper ((*http.Client).Do modelled as Transport.RoundTrip): consumer selection for every response Content-Type = absent / spelling (+ parameter) / spelling ⧺ ≤1 (quick) / ≤2 (thorough) arbitrary bytes / ≤2 / ≤3 raw bytes over 5 registries, status codes and header sets through the response adapter; client/context precedence over call histories of 2 (3) (exhaustive); shared-write monitor over one Submit from a Runtime whose client exists, is created by this call, or was supplied without transport (inductive step for any number of concurrent callers)", "DESIGN.md §2 C13, §8.3"),
  "C14": ("client credential writers composed with the server authenticators on the same *http.Request: user/password/token of ≤2 (quick) / ≤4 (thorough) symbolic bytes through the real base64 encode/decode, header/query/form placements and precedence, default-auth lattice", "DESIGN.md §2 C14"),
  "C18": ("exhaustive symbolic execution of TLSClientAuth over the whole option lattice with the crypto/file environment stubbed by nondeterministic outcomes; witnesses replayed against real crypto with the repository's fixtures", "DESIGN.md §2 C18"),
  "C19": ("verify() on duplicate-free lists of ≤2 (quick) / ≤3 (thorough) one-byte symbolic names with set-equality/sortedness oracles decided by SMT; Validate() over description × registration-variation catalogue (exact, each omission, additions)", "DESIGN.md §2 C19"),
